@@ -2,10 +2,12 @@ import Revm.Proofs.EvmLinkTotal2
 import Revm.Proofs.EvmLinkLoop
 import Revm.Proofs.EvmLinkHostAddr
 import Revm.Proofs.EvmInstLoaded2
+import Revm.Proofs.EvmLinkResult
 /-! LINK, panic-freedom, part 3 (C07 `run_total` on EvmLoop): along `run_the_loop`, from a well-formed world whose open
 frames hold nested checkpoints inside the journal, no journal / frame-machine `unwrap` is ever hit. What can still
 stop the loop: a soft failure (`Soft`), or a RESIDUAL failure of the interpreter side (`Resid`: an interpreter fault,
-a fault while inserting an outcome, `free_context`, an EOFCREATE action, an internal result flag), or the fuel.
+a fault while inserting an outcome, `free_context`, an EOFCREATE action), or the fuel. No frame ends with an internal
+result flag (`RGood`, `Proofs/EvmLinkResult.lean`), so `output` never panics.
 `sload` / `sstore` / `selfdestruct` never fail: the request carries the frame's own address (`step_addr`), which is
 loaded (L3 `EvmInstLoaded.Inv`). -/
 set_option linter.unusedSimpArgs false
@@ -22,7 +24,6 @@ def Resid (e : Err) : Prop :=
   (∃ f : Interp.Fault, e = .panic s!"insert outcome: {f.name}") ∨
   e = .panic "free_context" ∨
   e = .panic "unsupported: Action.eofCreate (EOF frames are not modelled)" ∨
-  e = .panic "unexpected internal return flag" ∨
   e = .outOfFuel
 
 /-- `x` succeeds with a value satisfying `P`, or fails softly, or with a residual failure -/
@@ -90,8 +91,8 @@ theorem LI.updTop {top : JFrame} {rest : List JFrame} {w : World} (h : LI (top :
 
 def NInv : Next Journal.Checkpoint → Prop
   | .run stack w => stack ≠ [] ∧ LI stack w
-  | .ended top rest _ _ _ w => LI (top :: rest) w
-  | .done _ w => WOk w
+  | .ended top rest r _ _ w => LI (top :: rest) w ∧ RGood r
+  | .done r w => WOk w ∧ RGood r.result
 
 theorem tot2_deliver {kind : FrameKind} {o : Interp.ChildResult} {parent : JFrame} {rest : List JFrame}
     {mem : Memory.SharedMemory} {w : World} (h : LI (parent :: rest) w) :
@@ -99,7 +100,8 @@ theorem tot2_deliver {kind : FrameKind} {o : Interp.ChildResult} {parent : JFram
   unfold deliver
   split
   · exact tot2_pure ⟨List.cons_ne_nil _ _, h.updTop _⟩
-  · exact tot2_pure h
+  · rename_i r out s heq
+    exact tot2_pure ⟨h, hg_insertBy kind o _ _ _ _ heq⟩
   · exact tot2_resid (Or.inr (Or.inl ⟨_, rfl⟩))
 
 theorem tot2_freeCtx (m : Memory.SharedMemory) : Tot2 (freeCtx m) (fun _ => True) := by
@@ -109,7 +111,7 @@ theorem tot2_freeCtx (m : Memory.SharedMemory) : Tot2 (freeCtx m) (fun _ => True
   · exact tot2_resid (Or.inr (Or.inr (Or.inl rfl)))
 
 theorem tot2_frameEnd {cfg : Cfg} {top : JFrame} {rest : List JFrame} {r : Interp.IResult} {out : List Nat}
-    {s : Interp.IState} {w : World} (h : LI (top :: rest) w) :
+    {s : Interp.IState} {w : World} (h : LI (top :: rest) w) (hrg : RGood r) :
     Tot2 (frameEnd journalOps cfg top rest r out s w) NInv := by
   unfold frameEnd
   refine tot2_bind (tot2_freeCtx _) (fun mem _ => ?_)
@@ -123,11 +125,12 @@ theorem tot2_frameEnd {cfg : Cfg} {top : JFrame} {rest : List JFrame} {r : Inter
       refine tot2_of_tot (tot_mono (tot_createReturn h.ok cfg top.checkpoint a _ c1 c2
         (h.addrs top (List.mem_cons_self ..) a hk)) (fun p hp => ?_))
       exact ⟨hp.1, c3.mono hp.2.2.1, fun f hf a ha => hp.2.1.acct _ (h.addrs f (List.mem_cons_of_mem _ hf) a ha)⟩
-  refine tot2_bind hret (fun p hp => ?_)
+  refine tot2_bind' hret (fun p heq hp => ?_)
   obtain ⟨res, w1⟩ := p
+  have hres : RGood res.result := frameReturn_rgood (res := resultOf r out s) hrg heq
   dsimp only at hp ⊢
   cases rest with
-  | nil => exact tot2_pure hp.ok
+  | nil => exact tot2_pure ⟨hp.ok, hres⟩
   | cons parent rest' => exact tot2_deliver hp
 
 /-- the created address of a new create frame is loaded -/
@@ -168,14 +171,14 @@ theorem tot2_frameAction {cfg : Cfg} {top : JFrame} {rest : List JFrame} {a : In
     | tail _ hg => exact hli.addrs g hg a ha
   | result o => exact tot2_deliver hli
 
-theorem tot2_afterStep {cfg : Cfg} {top : JFrame} {rest : List JFrame} {d : Interp.Done} {w : World}
-    (h : LI (top :: rest) w) : Tot2 (afterStep journalOps cfg top rest d w) NInv := by
+theorem tot2_afterStep {cfg : Cfg} {top : JFrame} {rest : List JFrame} {d : Interp.Done} {w : World} {s0 : Interp.IState}
+    (h : LI (top :: rest) w) (hd : SDone s0 d) : Tot2 (afterStep journalOps cfg top rest d w) NInv := by
   unfold afterStep
-  cases d with
-  | next s => exact tot2_pure ⟨List.cons_ne_nil _ _, h.updTop s⟩
-  | action a s => exact tot2_frameAction h
-  | halt r out s => exact tot2_frameEnd h
-  | fault f => exact tot2_resid (Or.inl ⟨_, rfl⟩)
+  cases hd with
+  | next _ _ => exact tot2_pure ⟨List.cons_ne_nil _ _, h.updTop _⟩
+  | action _ _ => exact tot2_frameAction h
+  | halt _ hr => exact tot2_frameEnd h hr
+  | fault => exact tot2_resid (Or.inl ⟨_, rfl⟩)
 
 /-- **one iteration of `run_the_loop` hits no journal / frame-machine `unwrap`** and keeps the invariant -/
 theorem tot2_iterate {cfg : Cfg} {stack : List JFrame} {w : World} (hne : stack ≠ []) (h : LI stack w)
@@ -185,43 +188,52 @@ theorem tot2_iterate {cfg : Cfg} {stack : List JFrame} {w : World} (hne : stack 
   | nil => exact absurd rfl hne
   | cons top rest =>
     dsimp only
+    have hst := step_strict top.interp
     split
-    · exact tot2_afterStep h
+    · rename_i d heq0
+      rw [heq0] at hst
+      cases hst with
+      | pure hd => exact tot2_afterStep h hd
     · rename_i op k heq
+      rw [heq] at hst
+      have hk : ∀ r : Interp.HostResp, r.ok = true → SDone top.interp (k r) := by
+        cases hst with
+        | host hk => exact hk
       have haddr := step_addr top.interp heq
       have hin : (w.js.state top.interp.target).isSome := isSome_of_ne_none (hi top (List.mem_cons_self ..))
       have hok : HOk w.js op := by
         cases op <;> first | trivial | (show (w.js.state _).isSome = true; rw [show _ = top.interp.target from haddr]; exact hin)
-      refine tot2_bind (tot2_of_tot (tot_answer h.ok cfg.he _ hok)) (fun p hp => ?_)
-      exact tot2_afterStep (h.step hp)
+      refine tot2_bind' (tot2_of_tot (tot_answer h.ok cfg.he _ hok)) (fun p hans hp => ?_)
+      obtain ⟨resp, w1⟩ := p
+      exact tot2_afterStep (h.step hp) (hk resp (answer_ok hans))
 
 /-- **`run_the_loop` hits no journal / frame-machine `unwrap`** (C07 `run_total` on EvmLoop): for every fuel -/
 theorem tot2_runLoop (cfg : Cfg) : ∀ fuel : Nat,
     (∀ stack w, stack ≠ [] → LI stack w → Proofs.EvmInstLoaded.Inv stack w →
-      Tot2 (runLoop journalOps cfg fuel stack w) (fun p => WOk p.2)) ∧
-    (∀ top rest r out s w, LI (top :: rest) w → Proofs.EvmInstLoaded.Inv rest w →
-      Tot2 (runEnded journalOps cfg fuel top rest r out s w) (fun p => WOk p.2)) := by
+      Tot2 (runLoop journalOps cfg fuel stack w) (fun p => WOk p.2 ∧ RGood p.1.result)) ∧
+    (∀ top rest r out s w, LI (top :: rest) w → RGood r → Proofs.EvmInstLoaded.Inv rest w →
+      Tot2 (runEnded journalOps cfg fuel top rest r out s w) (fun p => WOk p.2 ∧ RGood p.1.result)) := by
   intro fuel
   induction fuel with
   | zero =>
-    refine ⟨fun stack w _ _ _ => ?_, fun top rest r out s w _ _ => ?_⟩
+    refine ⟨fun stack w _ _ _ => ?_, fun top rest r out s w _ _ _ => ?_⟩
     · unfold runLoop; exact tot2_resid (by unfold Resid; simp)
     · unfold runEnded; exact tot2_resid (by unfold Resid; simp)
   | succ n ih =>
-    refine ⟨fun stack w hne h hi => ?_, fun top rest r out s w h hi => ?_⟩
+    refine ⟨fun stack w hne h hi => ?_, fun top rest r out s w h hrg hi => ?_⟩
     · unfold runLoop
       refine tot2_bind' (tot2_iterate hne h hi) (fun nx heq hnx => ?_)
       have hin := Proofs.EvmInstLoaded.iterate_inv heq hi
       cases nx with
       | run st w' => exact ih.1 st w' hnx.1 hnx.2 hin
-      | ended t rest r out s w' => exact ih.2 t rest r out s w' hnx hin
+      | ended t rest r out s w' => exact ih.2 t rest r out s w' hnx.1 hnx.2 hin
       | done r w' => exact tot2_pure hnx
     · unfold runEnded
-      refine tot2_bind' (tot2_frameEnd h) (fun nx heq hnx => ?_)
+      refine tot2_bind' (tot2_frameEnd h hrg) (fun nx heq hnx => ?_)
       have hin := Proofs.EvmInstLoaded.frameEnd_inv heq hi
       cases nx with
       | run st w' => exact ih.1 st w' hnx.1 hnx.2 hin
-      | ended t rest r out s w' => exact ih.2 t rest r out s w' hnx hin
+      | ended t rest r out s w' => exact ih.2 t rest r out s w' hnx.1 hnx.2 hin
       | done r w' => exact tot2_pure hnx
 
 end Revm.Proofs.EvmLink
